@@ -183,6 +183,13 @@ class Index(PyModel):
     def tolist(self):
         return list(iter(self))
 
+    def unique(self):
+        seen = []
+        for t in self.tuples:
+            if not any(all(cell_eq(a, b) for a, b in zip(t, u)) for u in seen):
+                seen.append(t)
+        return Index(seen, self.names, False, self.multi)
+
     def get_indexer(self, target, **k):
         _only(k, (), 'Index.get_indexer')
         """position of each target label, -1 where the label is not in the index"""
